@@ -134,7 +134,7 @@ func joinValues(values []any, sep string) string {
 }
 
 // populateDefaultQueryParameters populates default values inside query parameters, while ensuring types are respected
-func populateDefaultQueryParameters(q url.Values, parameterName string, value any, explode bool, delim string) {
+func populateDefaultQueryParameters(q url.Values, parameterName string, value any, explode bool, delim string, deepObject bool) {
 	switch t := value.(type) {
 	case []any:
 		if explode {
@@ -142,9 +142,45 @@ func populateDefaultQueryParameters(q url.Values, parameterName string, value an
 		} else {
 			q.Add(parameterName, joinValues(t, delim))
 		}
+	case map[string]any:
+		// an object default: its members the way the serialization method reads them back
+		switch {
+		case deepObject:
+			for _, k := range sortedKeys(t) {
+				q.Add(parameterName+"["+k+"]", defaultValueToString(t[k]))
+			}
+		case explode:
+			for _, k := range sortedKeys(t) {
+				q.Add(k, defaultValueToString(t[k]))
+			}
+		default:
+			q.Add(parameterName, defaultObjectToString(t, false))
+		}
 	default:
 		q.Add(parameterName, defaultValueToString(value))
 	}
+}
+
+func sortedKeys(m map[string]any) []string {
+	keys := make([]string, 0, len(m))
+	for k := range m {
+		keys = append(keys, k)
+	}
+	sort.Strings(keys)
+	return keys
+}
+
+// defaultObjectToString writes an object default as name,value pairs (name=value pairs when exploded)
+func defaultObjectToString(m map[string]any, explode bool) string {
+	parts := make([]string, 0, 2*len(m))
+	for _, k := range sortedKeys(m) {
+		if explode {
+			parts = append(parts, k+"="+defaultValueToString(m[k]))
+		} else {
+			parts = append(parts, k, defaultValueToString(m[k]))
+		}
+	}
+	return strings.Join(parts, ",")
 }
 
 // defaultListToString writes an array default of a header or cookie parameter the way it is read back
@@ -192,7 +228,7 @@ func ValidateParameter(ctx context.Context, input *RequestValidationInput, param
 	}
 
 	// Set default value if needed: a default stands in for a parameter the request does not carry
-	if !options.SkipSettingDefaults && value == nil && !found && schema != nil {
+	if !options.SkipSettingDefaults && isNilValue(value) && !found && schema != nil {
 		value = schema.Default
 		for _, subSchema := range schema.AllOf {
 			if subSchema.Value.Default != nil {
@@ -210,7 +246,7 @@ func ValidateParameter(ctx context.Context, input *RequestValidationInput, param
 			case openapi3.ParameterInQuery:
 				q := req.URL.Query()
 				// the default is written the way the parameter's serialization method reads it back
-				explode, delim := true, ","
+				explode, delim, deepObject := true, ",", false
 				if sm, err := parameter.SerializationMethod(); err == nil {
 					explode = sm.Explode
 					switch sm.Style {
@@ -218,16 +254,27 @@ func ValidateParameter(ctx context.Context, input *RequestValidationInput, param
 						delim = " "
 					case openapi3.SerializationPipeDelimited:
 						delim = "|"
+					case openapi3.SerializationDeepObject:
+						deepObject = true
 					}
 				}
-				populateDefaultQueryParameters(q, parameter.Name, value, explode, delim)
+				populateDefaultQueryParameters(q, parameter.Name, value, explode, delim, deepObject)
 				req.URL.RawQuery = q.Encode()
 			case openapi3.ParameterInHeader:
-				req.Header.Add(parameter.Name, defaultListToString(value))
+				if m, ok := value.(map[string]any); ok {
+					sm, err := parameter.SerializationMethod()
+					req.Header.Add(parameter.Name, defaultObjectToString(m, err == nil && sm.Explode))
+				} else {
+					req.Header.Add(parameter.Name, defaultListToString(value))
+				}
 			case openapi3.ParameterInCookie:
+				text := defaultListToString(value)
+				if m, ok := value.(map[string]any); ok {
+					text = defaultObjectToString(m, false)
+				}
 				req.AddCookie(&http.Cookie{
 					Name:  parameter.Name,
-					Value: defaultListToString(value),
+					Value: text,
 				})
 			}
 		}
